@@ -69,7 +69,15 @@ for _n in _REPR:
 _CMP = _h(_scan('int_cmp.rs', 'vk_int_cmp_'),
           'magnitudes of at most 3 words (TypedReprRef: 4), full 64-bit symbolic words')
 
+_FORMS = _h(_scan('int_forms.rs', 'vk_int_forms_'),
+            'operands of 1, 2 or 3 words (class per harness: suffix _A_B); full 64-bit symbolic words for + - & | ^ '
+            '<< >> (shift < 130), palette words {0, 1, 2^63, 2^64-1} for * / %')
+
 KANI = {
+    'int_forms': {
+        'package': 'dashu-int', 'target': 'integer/src/lib.rs', 'file': 'int_forms.rs',
+        'harnesses': _FORMS,
+    },
     'int_cmp': {
         'package': 'dashu-int', 'target': 'integer/src/cmp.rs', 'file': 'int_cmp.rs',
         'harnesses': _CMP,
@@ -90,6 +98,6 @@ KANI = {
 
 PROP_UNITS = {
     'C17': {'kani': ['int_buffer', 'int_repr']},
-    'C05': {'kani': ['int_repr']},
+    'C05': {'kani': ['int_repr', 'int_cmp']},
     'C15': {'kani': ['int_repr']},
 }
